@@ -234,6 +234,7 @@ func cueListHeaps(p *Program) map[string]bool {
 	for h := range ms.heaps {
 		d := describeHeapName(h)
 		out[d] = true
+		out[heapGroup(d)] = true
 		out[heapGroup(d)+".*"] = true
 	}
 	return out
